@@ -562,9 +562,9 @@ def run(ctx):
             x = np.asarray(approx.project_L2(kvs, f, geo=geo))
             M = assemble.mass(kvs, geo=geo).toarray()
             b = assemble.inner_products(kvs, f, geo=geo).ravel()
-            minv = float(np.linalg.norm(np.linalg.inv(M), 2))
-            # cg stops at |r| <= max(1e-12*|b|, 1e-12): |x - c| <= |M^-1| |r|; plus rounding of the assembled system
-            tol = minv * (10 * max(1e-12 * float(np.linalg.norm(b)), 1e-12) + 1024 * x.size * EPS * float(np.linalg.norm(M, 2)) * max(1.0, float(np.abs(coef).max())))
+            # the projection is invariant under scaling of the geometry, so the bound must be purely relative:
+            # |x - c| <= |M^-1| |r|, |r| <= rtol |b| <= rtol |M| |c|  =>  |x - c| <= cond2(M) * rtol * |c|  (+ rounding of the assembled system)
+            tol = float(np.linalg.cond(M)) * (10 * 1e-12 + 1024 * x.size * EPS) * max(float(np.linalg.norm(coef)), 2.0 ** -1000)
             if x.shape != coef.shape or np.abs(x - coef).max() > tol:
                 ctx.violation('l2-geo-reproduce', 'geometry-weighted project_L2 (CG, maxiter=100) does not reproduce a function of the space: error %g > bound %g' % (
                     np.abs(x - coef).max() if x.shape == coef.shape else np.inf, tol), replay, True)
@@ -585,16 +585,75 @@ def run(ctx):
             cref = np.asarray(approx.interpolate(kvs, pull))       # the pull-back is a polynomial of the space
             M = assemble.mass(kvs, geo=aff).toarray()
             b = assemble.inner_products(kvs, pull, geo=aff).ravel()
-            minv = float(np.linalg.norm(np.linalg.inv(M), 2))
             kap = float(np.prod([cond_inf(bspline.collocation(kv, kv.greville()).toarray()) for kv in kvs]))
             sc = max(1.0, float(np.abs(cref).max()))
-            tol = minv * (10 * max(1e-12 * float(np.linalg.norm(b)), 1e-12) + 1024 * xa.size * EPS * float(np.linalg.norm(M, 2)) * sc) \
+            tol = float(np.linalg.cond(M)) * (10 * 1e-12 + 1024 * xa.size * EPS) * max(float(np.linalg.norm(cref)), 1.0) \
                 + 64.0 * xa.size * EPS * kap * sc
             if xa.shape != cref.shape or np.abs(xa - cref).max() > tol or np.abs(xa - xb).max() > 2 * tol:
                 ctx.violation('l2-physical', 'project_L2(f_physical=True, geo) differs from the projection of the pull-back: |phys - ref| = %g, |phys - pullback| = %g, bound %g' % (
                     np.abs(xa - cref).max() if xa.shape == cref.shape else np.inf, np.abs(xa - xb).max() if xa.shape == xb.shape else np.inf, tol), replay, True)
         except Exception as ex:
             ctx.violation('l2-raise', 'project_L2(f_physical=True) raised %s' % type(ex).__name__, dict(replay, error=str(ex)[:200]), True)
+    # ------------------------------------------------------------ geometry scales over many decades (powers of two: scaling is exact)
+    nsc = 24 if quick else 200
+    for it in range(nsc):
+        kvs = tuple(bspline.make_knots(int(rng.integers(1, 4)), 0.0, 1.0, int(rng.integers(1, 4))) for _ in range(2))
+        nd = tuple(kv.numdofs for kv in kvs)
+        coef = rng.integers(-8, 9, size=nd) / 8.0
+        fel = bspline.BSplineFunc(kvs, coef)
+        which = str(rng.choice(['affine', 'bilinear', 'nurbs']))
+        if which == 'affine':
+            base = geometry.unit_square().scale((float(rng.integers(1, 4)), float(rng.integers(1, 4)) / 2.0)).translate((float(rng.integers(-2, 3)), float(rng.integers(-2, 3))))
+        elif which == 'bilinear':
+            kl = bspline.make_knots(1, 0.0, 1.0, 1)
+            corners = np.array([[[0.0, 0.0], [1.0, 0.0]], [[0.0, 1.0], [1.0, 1.0]]]) + rng.integers(-2, 3, size=(2, 2, 2)) / 8.0
+            base = bspline.BSplineFunc((kl, kl), corners)
+        else:
+            base = geometry.quarter_annulus()
+        iso = bool(rng.integers(0, 2))
+        e0 = int(rng.integers(-30, 21)); e1 = e0 if iso else int(rng.integers(-30, 21))
+        sx, sy = 2.0 ** e0, 2.0 ** e1
+        geo = base.scale((sx, sy))
+        cg_ = rng.integers(-3, 4, size=(3, 3)).astype(float)
+        g = lambda x, y, cg_=cg_: sum(cg_[i, j] * x ** i * y ** j for i in range(3) for j in range(3))     # data in the unscaled physical coordinates
+        gs = lambda x, y, g=g, sx=sx, sy=sy: g(x / sx, y / sy)                                           # the same data in the scaled coordinates
+        replay = {'mode': 'geometry-scale', 'geometry': which, 'scale_exponents_xy': [e0, e1], 'kvs': [(kv.p, kv.kv.tolist()) for kv in kvs],
+                  'coeffs': coef.tolist(), 'poly': cg_.tolist()}
+        ctx.case(('geoscale', which, e0, e1, tuple((kv.p, kv.kv.tobytes()) for kv in kvs), coef.tobytes(), cg_.tobytes()))
+        ctx.count('stream=geometry-scale'); ctx.count('geometry-scale kind=' + which); ctx.count('geometry-scale ' + ('isotropic' if iso else 'anisotropic'))
+        ctx.count('geometry-scale decade=%d' % int(np.floor((e0 + e1) / 2 * np.log10(2.0))))
+        try:
+            N = int(np.prod(nd))
+            M0 = assemble.mass(kvs, geo=base).toarray()
+            condM = float(np.linalg.cond(M0))
+            rel = condM * (10 * 1e-12 + 1024 * N * EPS)
+            # (a) an element of the space in parameter coordinates is reproduced at every scale
+            xa = np.asarray(approx.project_L2(kvs, fel, geo=geo))
+            if xa.shape != coef.shape or not np.abs(xa - coef).max() <= rel * max(float(np.linalg.norm(coef)), 1.0):
+                key = 'l2-geo-small-scale' if np.all(xa == 0) and np.any(coef != 0) else 'l2-geo-scale'
+                ctx.violation(key, 'project_L2(kvs, f, geo) with the %s geometry scaled by (2^%d, 2^%d) does not reproduce an element of the space: error %g, bound %g%s' % (
+                    which, e0, e1, np.abs(xa - coef).max() if xa.shape == coef.shape else np.inf, rel * max(float(np.linalg.norm(coef)), 1.0),
+                    ' (the result is identically zero)' if key == 'l2-geo-small-scale' else ''), replay, True)
+            # (b) physical data: everything is invariant (or scales by sx*sy) under the exact power-of-two scaling
+            ref_i = np.asarray(approx.interpolate(kvs, g, geo=base)); got_i = np.asarray(approx.interpolate(kvs, gs, geo=geo))
+            kap = float(np.prod([cond_inf(dense_collocation(kv.kv, kv.p, kv.greville())) for kv in kvs]))
+            ti = 256.0 * N * EPS * kap * max(1.0, float(np.abs(ref_i).max()))
+            if got_i.shape != ref_i.shape or not np.abs(got_i - ref_i).max() <= ti:
+                ctx.violation('interp-geo-scale', 'interpolate(kvs, f_phys, geo) changes under an exact rescaling (2^%d, 2^%d) of the %s geometry and the data: diff %g > %g' % (
+                    e0, e1, which, np.abs(got_i - ref_i).max() if got_i.shape == ref_i.shape else np.inf, ti), replay, True)
+            ref_b = np.asarray(assemble.inner_products(kvs, g, f_physical=True, geo=base)); got_b = np.asarray(assemble.inner_products(kvs, gs, f_physical=True, geo=geo))
+            tb = 4096.0 * N * EPS * max(float(np.abs(ref_b).max()), 2.0 ** -1000)
+            if got_b.shape != ref_b.shape or not np.abs(got_b / (sx * sy) - ref_b).max() <= tb:
+                ctx.violation('inner-products-geo-scale', 'inner_products(f_physical=True) does not scale with |det| under the rescaling (2^%d, 2^%d) of the %s geometry: relative diff %g' % (
+                    e0, e1, which, np.abs(got_b / (sx * sy) - ref_b).max() / max(float(np.abs(ref_b).max()), 2.0 ** -1000) if got_b.shape == ref_b.shape else np.inf), replay, True)
+            ref_p = np.asarray(approx.project_L2(kvs, g, f_physical=True, geo=base)); got_p = np.asarray(approx.project_L2(kvs, gs, f_physical=True, geo=geo))
+            tp = 2 * rel * max(float(np.linalg.norm(ref_p)), 1.0)
+            if got_p.shape != ref_p.shape or not np.abs(got_p - ref_p).max() <= tp:
+                key = 'l2-geo-small-scale' if np.all(got_p == 0) and np.any(ref_p != 0) else 'l2-geo-scale'
+                ctx.violation(key, 'project_L2(f_physical=True) changes under an exact rescaling (2^%d, 2^%d) of the %s geometry and the data: diff %g > %g' % (
+                    e0, e1, which, np.abs(got_p - ref_p).max() if got_p.shape == ref_p.shape else np.inf, tp), replay, True)
+        except Exception as ex:
+            ctx.violation('geo-scale-raise', 'geometry scaled by (2^%d, 2^%d) raised %s: %s' % (e0, e1, type(ex).__name__, str(ex)[:150]), replay, True)
     # ------------------------------------------------------------ 3-D project_L2 under full affine maps (coupled Jacobian)
     n3 = 8 if quick else 60
     for it in range(n3):
@@ -623,10 +682,10 @@ def run(ctx):
         ctx.case(('l2-3d', tuple((kv.p, kv.kv.tobytes()) for kv in kvs), Amat.tobytes(), coef.tobytes())); ctx.count('stream=l2-3d-affine(cg)')
         try:
             M = assemble.mass(kvs, geo=geo).toarray()
-            minv = float(np.linalg.norm(np.linalg.inv(M), 2)); nM = float(np.linalg.norm(M, 2))
             N = M.shape[0]
-            def tol_for(b, sc):
-                return minv * (10 * max(1e-12 * float(np.linalg.norm(b)), 1e-12) + 1024 * N * EPS * nM * sc)
+            condM = float(np.linalg.cond(M))
+            def tol_for(b, sc):          # purely relative (see the 2-D stream)
+                return condM * (10 * 1e-12 + 1024 * N * EPS) * sc * np.sqrt(N)
             # (a) an element of the space given in parameter coordinates
             xa = np.asarray(approx.project_L2(kvs, f, geo=geo))
             ba = assemble.inner_products(kvs, f, geo=geo).ravel()
